@@ -113,3 +113,42 @@ func init() {
 		return checkC11Text(c)
 	})
 }
+
+// c11.badtext: text that is not valid IDL must be rejected by the CLI: non-zero exit, a
+// message, no Go runtime trace, no hang.
+func checkC11BadText(c textCase) *ev.Failure {
+	dir, cleanup := scratchDir("c11bt")
+	defer cleanup()
+	root, err := c.write(filepath.Join(dir, "src"))
+	if err != nil {
+		return ev.Failf("harness:write", "%v", err)
+	}
+	args := []string{"-gen", c.Target, "-out", filepath.Join(dir, "out")}
+	if c.Recurse {
+		args = append(args, "-r")
+	}
+	r := runCLI(dir, append(args, root)...)
+	switch {
+	case r.exit == -2:
+		return ev.Failf("harness:cli", "%s", r.out)
+	case r.timedOut:
+		return ev.Failf("cli-hang:text", "the compiler did not terminate within 20s\n%s", c.texts())
+	case hasGoTrace(r.out) != "":
+		return ev.Failf("cli-crash:text", "the compiler died with a Go runtime trace, exit %d:\n%s\n%s", r.exit, clip(r.out, 1500), c.texts())
+	case r.exit == 0:
+		return ev.Failf("invalid-accepted:text", "-gen %s exited 0 on input that is not valid IDL\n%s", c.Target, c.texts())
+	case strings.TrimSpace(r.out) == "":
+		return ev.Failf("cli-silent-failure", "exit %d without any message\n%s", r.exit, c.texts())
+	}
+	return nil
+}
+
+func init() {
+	ev.Register("c11.badtext", func(raw []byte) *ev.Failure {
+		var c textCase
+		if err := json.Unmarshal(raw, &c); err != nil {
+			return ev.Failf("harness:bad-replay", "%v", err)
+		}
+		return checkC11BadText(c)
+	})
+}
